@@ -37,9 +37,21 @@ def gen_grid(rng, n, kind):
     elif kind == "irregular":
         x = sorted(rng.uniform(-10, 10) for _ in range(n))
         x = [v + 1e-3 * i for i, v in enumerate(x)]
+    elif kind in ("tiny", "nearuniform"):
+        x = []
     else:  # pressure-like decreasing
         x = sorted((math.exp(rng.uniform(math.log(1e2), math.log(1.1e5))) for _ in range(n)), reverse=True)
         x = [v - 1e-6 * i for i, v in enumerate(x)]
+    if kind == "tiny":       # coordinates in small units (wavelengths in m, small mixing ratios): widths << 1e-8
+        sc = rng.choice([1e-9, 1e-12, 1e-7])
+        x = [v * sc for v in sorted(rng.uniform(0, 10) for _ in range(n))]
+        x = [v + sc * 1e-3 * i for i, v in enumerate(x)]
+    if kind == "nearuniform":    # equidistant except for one slightly different spacing
+        a, h = rng.uniform(-5, 5), rng.uniform(0.5, 3)
+        x = [a + h * i for i in range(n)]
+        k = rng.randrange(n)
+        eps = h * rng.choice([1e-5, 3e-6, 1e-4, 1e-7])
+        x = [v + (eps if i >= k else 0.0) for i, v in enumerate(x)]
     if kind != "pressure" and rng.random() < 0.3:
         x = x[::-1]
     return x
@@ -56,7 +68,7 @@ def explore(ck, n, np, tmath, atm, use_model=True):
 
     for it in range(n):
         m = rng.choice([2, 3, 5, 17, 60]) if it % 25 else 2000
-        kind = rng.choice(["uniform", "irregular", "pressure"])
+        kind = rng.choice(["uniform", "irregular", "pressure", "pressure", "tiny", "nearuniform"])
         x = gen_grid(rng, m, kind)
         y = [rng.uniform(0, 5) if rng.random() < 0.7 else rng.uniform(-5, 5) for _ in range(m)]
         z = [rng.uniform(-2, 2) for _ in range(m)]
@@ -93,6 +105,13 @@ def explore(ck, n, np, tmath, atm, use_model=True):
             ck.violation("other", f"integrate_column(y) without x = {unit!r}, unit-spacing value {wu!r}", case)
         if m <= 60:
             model(f"trapzu {m} {bl(y)}", unit, "integrate_column(y)", case)
+        # integer-typed inputs (dtype glue): integer y, and integer pressures further below
+        if m <= 60 and kind in ("uniform", "irregular"):
+            yi = [rng.randint(-9, 9) for _ in range(m)]
+            gi = float(tmath.integrate_column(np.array(yi, dtype=rng.choice(["int64", "int32"])), xa))
+            wi = float(frac_trapz(x, yi))
+            if abs(gi - wi) > 1e-11 * (sum(abs(v) for v in x) * 9 + 1):
+                ck.violation("other", f"integrate_column with integer-typed y = {gi!r}, expected {wi!r}", dict(case, y=yi))
         # any axis of an n-d array
         if m <= 17:
             k2 = rng.randint(1, 3)
@@ -144,6 +163,19 @@ def explore(ck, n, np, tmath, atm, use_model=True):
             if m <= 60 and use_model:
                 lines.append(f"p2h {m} {bl(x)} {bl(T)}")
                 expect.append((zz.tolist(), "pressure2height(p, T)", c4, 1e-11))
+            if rng.random() < 0.3:
+                # integer-typed pressure array (Pa as integers): same heights as for the float array
+                pi_ = sorted({int(v) for v in x}, reverse=True)
+                if len(pi_) >= 2:
+                    Ti = [T[0]] * len(pi_)
+                    zi = np.asarray(atm.pressure2height(np.array(pi_, dtype="int64"), np.array(Ti)))
+                    zf = np.asarray(atm.pressure2height(np.array(pi_, dtype=float), np.array(Ti)))
+                    iwi = float(atm.integrate_water_vapor(np.full(len(pi_), 0.01), np.array(pi_, dtype="int64")))
+                    iwf = float(atm.integrate_water_vapor(np.full(len(pi_), 0.01), np.array(pi_, dtype=float)))
+                    ck.case(key=("intp", len(pi_), pi_[0]), kind="int-dtype")
+                    if zi.shape != zf.shape or np.max(np.abs(zi - zf)) > 1e-9 * max(float(zf[-1]), 1.0) or rel(iwi, iwf) > 1e-12:
+                        ck.violation("other", f"integer-typed pressures change the result: pressure2height {zi[:4].tolist()} vs {zf[:4].tolist()}, IWV {iwi!r} vs {iwf!r}",
+                                     {"fn": "pressure2height/int", "p": pi_[:8], "T": T[0]})
             zstd = np.asarray(atm.pressure2height(xa))
             if zstd[0] != 0 or not np.all(np.diff(zstd) > 0):
                 ck.violation("other", "pressure2height without T (standard atmosphere) is not strictly increasing", c4)
